@@ -14,10 +14,10 @@ PINS = os.path.join(HERE, "pins.json")
 SPEC = {
     "C01": ["samply/src/linux_shared/processes.rs", "samply/src/linux_shared/process_threads.rs", "samply/src/linux_shared/thread.rs",
             "samply/src/shared/unresolved_samples.rs",
-            "samply/src/linux_shared/converter.rs::handle_main_event_sample,handle_fork,handle_exit,handle_comm,handle_context_switch,finish",
+            "samply/src/linux_shared/converter.rs::handle_main_event_sample,handle_fork,handle_exit,handle_comm,handle_exec,handle_thread_rename,handle_context_switch,finish",
             "samply/src/linux_shared/process.rs::notify_dead,finish,recycle_or_get_new_thread"],
     "C17": ["samply/src/linux_shared/processes.rs", "samply/src/linux_shared/process_threads.rs", "samply/src/linux_shared/thread.rs",
-            "samply/src/linux_shared/converter.rs::handle_fork,handle_exit,handle_comm",
+            "samply/src/linux_shared/converter.rs::handle_fork,handle_exit,handle_comm,handle_exec,handle_thread_rename",
             "samply/src/linux_shared/process.rs::notify_dead,finish,rename_without_recycling,recycle_or_get_new_thread"],
     "C02": ["samply/src/shared/lib_mappings.rs", "samply/src/shared/process_sample_data.rs::flush_samples_to_profile",
             "samply/src/linux_shared/converter.rs::handle_fork,handle_comm,get_sample_stack,compute_base_avma,add_module_to_process",
@@ -43,10 +43,10 @@ SPEC = {
     "C13": ["samply-symbols/src/cache.rs", "samply-symbols/src/chunked_read_buffer_manager.rs"],
     "C14": ["samply/src/shared/stack_depth_limiting_frame_iter.rs", "samply/src/shared/process_sample_data.rs::flush_samples_to_profile"],
     "C15": ["samply-quota-manager/src/file_inventory.rs", "samply-quota-manager/src/quota_manager.rs"],
-    "C16": ["wholesym/src/file_creation.rs"],
+    "C16": ["wholesym/src/file_creation.rs", "wholesym/src/breakpad.rs::write_symindex", "wholesym/src/downloader.rs::download_to_file"],
     "C18": ["samply/src/server.rs::generate_token,symbolication_service,start_server"],
     "C19": ["fxprof-processed-profile/src/library_info.rs", "samply/src/profile_json_preparse.rs", "wholesym/src/helper.rs::add_known_lib,fill_in_library_info_details",
-            "samply-symbols/src/shared.rs::from_str,fmt"],
+            "samply-symbols/src/shared.rs::from_str,fmt", "samply/src/linux_shared/converter.rs::add_module_to_process", "samply/src/shared/utils.rs::open_file_with_fallback"],
     "C20": ["samply-api/src/asm/mod.rs"],
 }
 
